@@ -41,6 +41,26 @@ CHECKS = {
         "session is new Python objects built from name and directory.",
         "DESIGN.md 3/C10",
     ),
+    "C11": (
+        "model_checking",
+        "stateless model checking of the implementation: all interleavings of the actors' file operations under a controlled scheduler, sleep-set partial-order reduction, preemption bounds where stated",
+        "Growers (xyz.grow / Crop.grow; distinct batches or the same batch "
+        "twice), a reap(wait=True) and a progress poller run as real threads on "
+        "a real crop directory; every file operation that can conflict with "
+        "another actor is a scheduling point owned by the explorer, which "
+        "enumerates every schedule depth-first up to sleep-set equivalence "
+        "(and up to a preemption bound for the largest configurations). In every "
+        "complete execution the reaper must return exactly the direct result, no "
+        "actor may raise, and every progress observation is compared with the "
+        "set of results that were completely written at that instant.",
+        "POSIX-local file system, operations atomic per system call, rename "
+        "atomic; clean_up=False; crops of 1-3 batches, 1-3 raw writes per "
+        "result; operations proven private to one actor (accumulated over all "
+        "executions, exploration restarted whenever that knowledge grows) are "
+        "not scheduling points; a wall-clock budget cuts off trees whose "
+        "schedule space explodes (never reached on the current tree).",
+        "DESIGN.md 3/C11",
+    ),
 }
 
 NOT_BUILT = "check not built yet in this session (design in DESIGN.md section 3)"
